@@ -10,6 +10,9 @@
 #include <aes_gcm.h>
 #include <aes_cbc.h>
 #include <aes_xts.h>
+#include <sys/mman.h>
+#include <unistd.h>
+#include <openssl/evp.h>
 
 enum { R_FAM, R_ISAL, R_LEGACY };
 static const char *const route_name[] = { "fam", "isal", "legacy" };
@@ -253,6 +256,105 @@ static void run_gcm_huge(int thorough)
         }
 }
 
+/* ---- single calls whose byte length does not fit 32 bits: periodic input (memfd mirror), real output, OpenSSL oracle compared through SHA-256 ---- */
+static uint8_t *alias_in(uint64_t need)
+{
+        const uint64_t PER = 64ull << 20; int nc = (int) (need / PER) + 2;
+        int fd = memfd_create("verif-aes", 0);
+        if (fd < 0 || ftruncate(fd, (off_t) PER)) out_err("memfd failed");
+        uint8_t *st = mmap(NULL, (uint64_t) nc * PER, PROT_NONE, MAP_PRIVATE | MAP_ANONYMOUS | MAP_NORESERVE, -1, 0);
+        if (st == MAP_FAILED) out_err("cannot reserve address space");
+        for (int i = 0; i < nc; i++) if (mmap(st + (uint64_t) i * PER, PER, i == 0 ? PROT_READ | PROT_WRITE : PROT_READ, MAP_SHARED | MAP_FIXED, fd, 0) == MAP_FAILED) out_err("mirror mmap failed");
+        rng_t r; rng_seed(&r, g_seed ^ 0xa11a5); rng_fill(&r, st, PER);
+        return st;
+}
+static void sha256_of(const uint8_t *p, uint64_t n, uint8_t out[32])
+{
+        EVP_MD_CTX *c = EVP_MD_CTX_new(); unsigned l;
+        EVP_DigestInit_ex(c, EVP_sha256(), NULL);
+        for (uint64_t o = 0; o < n; o += 1u << 30) EVP_DigestUpdate(c, p + o, n - o > (1u << 30) ? (1u << 30) : n - o);
+        EVP_DigestFinal_ex(c, out, &l); EVP_MD_CTX_free(c);
+}
+/* OpenSSL result of the mode over [in, in+len) hashed chunk by chunk (no second 4 GiB buffer) */
+static void ossl_stream_hash(const EVP_CIPHER *ci, int enc, const uint8_t *key, const uint8_t *iv, int gcm, const uint8_t *aad, int aadl, const uint8_t *in, uint64_t len, uint8_t hash[32], uint8_t tag[16])
+{
+        EVP_CIPHER_CTX *c = EVP_CIPHER_CTX_new(); EVP_MD_CTX *m = EVP_MD_CTX_new(); int n; unsigned l;
+        uint8_t *tmp = malloc((64u << 20) + 64);
+        EVP_DigestInit_ex(m, EVP_sha256(), NULL);
+        EVP_CipherInit_ex(c, ci, NULL, NULL, NULL, enc);
+        if (gcm) EVP_CIPHER_CTX_ctrl(c, EVP_CTRL_GCM_SET_IVLEN, 12, NULL);
+        EVP_CipherInit_ex(c, NULL, NULL, key, iv, enc);
+        EVP_CIPHER_CTX_set_padding(c, 0);
+        if (gcm && aadl) EVP_CipherUpdate(c, NULL, &n, aad, aadl);
+        for (uint64_t o = 0; o < len; o += 64u << 20) { int k = (int) (len - o > (64u << 20) ? (64u << 20) : len - o); EVP_CipherUpdate(c, tmp, &n, in + o, k); EVP_DigestUpdate(m, tmp, (size_t) n); }
+        EVP_CipherFinal_ex(c, tmp, &n);
+        if (gcm) EVP_CIPHER_CTX_ctrl(c, EVP_CTRL_GCM_GET_TAG, 16, tag);
+        EVP_DigestFinal_ex(m, hash, &l);
+        free(tmp); EVP_CIPHER_CTX_free(c); EVP_MD_CTX_free(m);
+}
+static void run_huge2(const char *what, int thorough)
+{
+        uint64_t len = !strcmp(what, "cbchuge") ? (1ull << 32) + 48 : (1ull << 32) + 10;
+        uint8_t *in = alias_in(len + 4096), *out = aligned_alloc(4096, (len + 8191) & ~4095ull);
+        if (!out) out_err("cannot allocate %llu bytes", (unsigned long long) len);
+        uint8_t key[32], iv[16] __attribute__((aligned(16))), aad[20], eh[32], gh[32], etag[16], tag[16];
+        rng_t r; rng_seed(&r, g_seed ^ 0x4095f); rng_fill(&r, key, 32); rng_fill(&r, iv, 16); rng_fill(&r, aad, 20);
+        char key_[160];
+        if (!strcmp(what, "gcmhuge2")) {
+                for (int ks = 0; ks < 2; ks++) {
+                        ossl_stream_hash(ks ? EVP_aes_256_gcm() : EVP_aes_128_gcm(), 1, key, iv, 1, aad, 20, in, len, eh, etag);
+                        for (int fi = 0; fi < NGCMFAM; fi++) {
+                                const gcmfam_t *f = &gcm_fams[fi];
+                                if (!fam_selected(f->name)) continue;
+                                snprintf(rbuf, sizeof rbuf, "{\"engine\":\"aesdiff\",\"what\":\"gcmhuge2\",\"fam\":\"%s\",\"ks\":%d}", f->name, ks_bits2[ks]); snprintf(cur_replay, sizeof cur_replay, "%s", rbuf);
+                                struct isal_gcm_key_data kd __attribute__((aligned(64))); struct isal_gcm_context_data ctx;
+                                ref_aes_t a; ref_aes_expand(&a, key, ks_bits2[ks]);
+                                memset(&kd, 0, sizeof kd); memcpy(&kd, a.enc, (size_t) 16 * (a.nr + 1)); f->s.precomp[ks](&kd);
+                                /* a pending partial block, then one update of exactly 2^32 bytes, then the rest */
+                                LABEL("gcm%d %s stream updates 1 + 2^32 + 9", ks_bits2[ks], f->name);
+                                f->s.init[ks](&kd, &ctx, iv, aad, 20);
+                                f->s.upd[ks][0][0](&kd, &ctx, out, in, 1); f->s.upd[ks][0][0](&kd, &ctx, out + 1, in + 1, 1ull << 32); f->s.upd[ks][0][0](&kd, &ctx, out + 1 + (1ull << 32), in + 1 + (1ull << 32), len - 1 - (1ull << 32));
+                                f->s.fin[ks][0](&kd, &ctx, tag, 16);
+                                cur_label[0] = 0;
+                                out_count("gcm_calls", 1); out_count("gcm_update_calls", 3); out_count("gcm_huge_calls", 1);
+                                sha256_of(out, len, gh);
+                                if (memcmp(gh, eh, 32) || memcmp(tag, etag, 16)) { snprintf(key_, sizeof key_, "gcm-huge-update-mismatch %d %s", ks_bits2[ks], f->name); out_viol(g_prop, key_, rbuf, "updates of 1, 2^32 and 9 bytes: %s differs from OpenSSL", memcmp(gh, eh, 32) ? "ciphertext" : "tag"); }
+                                feat(mix64(0x4095f, (uint64_t) fi * 2 + (uint64_t) ks));
+                                char n[64]; snprintf(n, sizeof n, "cases_%s", f->name); out_count(n, 1);
+                        }
+                        if (!thorough) break;
+                }
+        } else {
+                static const struct { const char *vcpu; int e, d; } combos[3] = { { "sse", 0, 0 }, { "avx", 1, 1 }, { "avx512_g2", 1, 2 } };
+                for (int ks = 0; ks < 3; ks++) {
+                        ref_aes_t a; ref_aes_expand(&a, key, ks_bits3[ks]);
+                        static uint8_t ke[240] __attribute__((aligned(16))), kdv[240] __attribute__((aligned(16)));
+                        memcpy(ke, a.enc, 240); memcpy(kdv, a.dec, 240);
+                        const EVP_CIPHER *ci = ks == 0 ? EVP_aes_128_cbc() : ks == 1 ? EVP_aes_192_cbc() : EVP_aes_256_cbc();
+                        for (int dir = thorough ? 0 : 1; dir < 2; dir++) {
+                                ossl_stream_hash(ci, !dir, key, iv, 0, NULL, 0, in, len, eh, etag);
+                                for (int ci_ = 0; ci_ < 3; ci_++) {
+                                        if (!fam_selected(combos[ci_].vcpu)) continue;
+                                        const char *fname = dir ? cbc_dec_fams[combos[ci_].d].name : cbc_enc_fams[combos[ci_].e].name;
+                                        snprintf(rbuf, sizeof rbuf, "{\"engine\":\"aesdiff\",\"what\":\"cbchuge\",\"fam\":\"%s\",\"ks\":%d,\"dir\":%d}", fname, ks_bits3[ks], dir); snprintf(cur_replay, sizeof cur_replay, "%s", rbuf);
+                                        LABEL("cbc%d %s %s len=2^32+48", ks_bits3[ks], dir ? "dec" : "enc", fname);
+                                        memset(out + len - 64, 0xA5, 64);
+                                        if (!dir) cbc_enc_fams[combos[ci_].e].f[ks](in, iv, ke, out, len); else cbc_dec_fams[combos[ci_].d].f[ks](in, iv, kdv, out, len);
+                                        cur_label[0] = 0;
+                                        out_count("cbc_calls", 1); out_count("cbc_huge_calls", 1);
+                                        sha256_of(out, len, gh);
+                                        if (memcmp(gh, eh, 32)) { snprintf(key_, sizeof key_, "cbc-huge-mismatch %d %s %s", ks_bits3[ks], dir ? "dec" : "enc", fname); out_viol(g_prop, key_, rbuf, "len = 2^32+48: output differs from OpenSSL"); }
+                                        feat(mix64(0x4096f, (uint64_t) ci_ * 8 + (uint64_t) ks * 2 + (uint64_t) dir));
+                                        char n[64]; snprintf(n, sizeof n, "cases_%s", combos[ci_].vcpu); out_count(n, 1);
+                                }
+                        }
+                        if (!thorough) break;
+                }
+                out_count("keyexp_calls", 1);
+        }
+        free(out);
+}
+
 /* ------------------------------------------------------------------ XTS */
 static void xts_case(const xtsfam_t *f, uint64_t c, int thorough)
 {
@@ -260,6 +362,8 @@ static void xts_case(const xtsfam_t *f, uint64_t c, int thorough)
         uint32_t len;
         if (c < 16) len = (uint32_t) c;                                 /* no-op clause */
         else if (c <= 1100) len = (uint32_t) c;
+        else if (c == 1101) len = 1u << 24;                             /* documented maximum data unit */
+        else if (c == 1102) len = (1u << 24) - 1;
         else switch (rng_below(&r, 8)) {
                 case 0: len = 16 + rng_below(&r, 65536); break;
                 case 1: len = 128 * (1 + rng_below(&r, 64)) + rng_below(&r, 33) - 16; break;
@@ -470,11 +574,12 @@ int main(int argc, char **argv)
         famsel = arg_str("--fam", "all");
         for (int i = 0; i < 3; i++) want_route[i] = strstr(routes, route_name[i]) != NULL;
         int thorough = !strcmp(arg_str("--tier", "quick"), "thorough");
+        if (thorough || !strcmp(what, "xts")) arena_sz = 160u << 20;
         arena = aligned_alloc(4096, arena_sz);
-        if (thorough) { free(arena); arena_sz = 160u << 20; arena = aligned_alloc(4096, arena_sz); }
         if (!strcmp(what, "gcm")) run_gcm(0, thorough);
         else if (!strcmp(what, "gcmstream")) run_gcm(1, thorough);
         else if (!strcmp(what, "gcmhuge")) run_gcm_huge(thorough);
+        else if (!strcmp(what, "gcmhuge2") || !strcmp(what, "cbchuge")) run_huge2(what, thorough);
         else if (!strcmp(what, "xts")) run_xts(thorough);
         else if (!strcmp(what, "cbc")) run_cbc(thorough);
         else out_err("unknown --what %s", what);
